@@ -769,7 +769,9 @@ impl Service {
                         peer_key
                             .log2_distance(&enr.node_id().into())
                             .map(|distance| distances_requested.contains(&distance))
-                            .unwrap_or_else(|| false)
+                            // The responder's own record is at distance 0 (it is what a peer must
+                            // return when 0 is requested together with other distances).
+                            .unwrap_or_else(|| distances_requested.contains(&0))
                     });
 
                     if nodes.len() < before_len {
